@@ -37,8 +37,11 @@ Inductive rstmt :=
 | RBad                                          (* break/continue naming no enclosing construct *)
 | RReturn (e : option expr)
 | RStatic (x : string) (init : value)
+| RTry (b : rstmt) (cs : rcatches) (f : rstmt)
+| RThrowSt (e : expr)
 with relifs := REINil | REICons (c : expr) (b : rstmt) (r : relifs)
-with rclauses := RCLNil | RCLCase (e : expr) (b : rstmt) (r : rclauses) | RCLDefault (b : rstmt) (r : rclauses).
+with rclauses := RCLNil | RCLCase (e : expr) (b : rstmt) (r : rclauses) | RCLDefault (b : rstmt) (r : rclauses)
+with rcatches := RCTNil | RCTCons (ty : string) (x : option string) (b : rstmt) (r : rcatches).
 
 (* the construct that `break k` / `continue k` names under the stack of enclosing constructs *)
 Definition target (stk : list lid) (k : nat) : option lid :=
@@ -61,6 +64,8 @@ Fixpoint resolve (stk : list lid) (path : lid) (s : stmt) {struct s} : rstmt :=
   | SContinue k => match target stk k with Some l => RCntTo l | None => RBad end
   | SReturn e => RReturn e
   | SStatic x i => RStatic x i
+  | STry b cs f => RTry (resolve stk (0 :: path) b) (resolve_catches stk path 2 cs) (resolve stk (1 :: path) f)
+  | SThrow e => RThrowSt e
   end
 with resolve_elifs (stk : list lid) (path : lid) (i : nat) (l : elifs) {struct l} : relifs :=
   match l with
@@ -72,13 +77,19 @@ with resolve_clauses (stk : list lid) (path : lid) (i : nat) (l : clauses) {stru
   | CLNil => RCLNil
   | CLCase e b r => RCLCase e (resolve stk (i :: path) b) (resolve_clauses stk path (S i) r)
   | CLDefault b r => RCLDefault (resolve stk (i :: path) b) (resolve_clauses stk path (S i) r)
+  end
+with resolve_catches (stk : list lid) (path : lid) (i : nat) (l : catches) {struct l} : rcatches :=
+  match l with
+  | CTNil => RCTNil
+  | CTCons ty x b r => RCTCons ty x (resolve stk (i :: path) b) (resolve_catches stk path (S i) r)
   end.
 
 (* every break/continue level is between 1 and the nesting depth (what PHP checks at compile
    time); equivalently, [resolve] produces no [RBad] *)
 Fixpoint scoped (d : nat) (s : stmt) {struct s} : bool :=
   match s with
-  | SSkip | SExpr _ | SEcho _ | SPush _ _ | SReturn _ | SStatic _ _ => true
+  | SSkip | SExpr _ | SEcho _ | SPush _ _ | SReturn _ | SStatic _ _ | SThrow _ => true
+  | STry b cs f => scoped d b && scoped_catches d cs && scoped d f
   | SSeq a b => scoped d a && scoped d b
   | SIf _ t ei e => scoped d t && scoped_elifs d ei && scoped d e
   | SWhile _ b | SDoWhile b _ | SFor _ _ _ b | SForeach _ _ _ b => scoped (S d) b
@@ -91,7 +102,9 @@ with scoped_clauses (d : nat) (l : clauses) {struct l} : bool :=
   match l with
   | CLNil => true
   | CLCase _ b r | CLDefault b r => scoped d b && scoped_clauses d r
-  end.
+  end
+with scoped_catches (d : nat) (l : catches) {struct l} : bool :=
+  match l with CTNil => true | CTCons _ _ b r => scoped d b && scoped_catches d r end.
 
 Inductive rctl := RNone | RBrk (l : lid) | RCnt (l : lid) | RRet (v : value) | RThrow (v : value).
 
@@ -169,6 +182,39 @@ Fixpoint reval (e : expr) (fr : frame) (g : glob) {struct e} : res eout :=
           | Fuel => Fuel
           end
       end
+  | ENew cls m =>
+      match reval m fr g with
+      | Res (EV v) fr g => Res (EV (VObj (gnext g) cls (to_str v))) fr (bump g)
+      | r => r
+      end
+  | EMsg e =>
+      match reval e fr g with
+      | Res (EV v) fr g =>
+          match msg_of v with
+          | Some m => Res (EV (VStr m)) fr g
+          | None => Res (EX (VErr "method call on a non-object")) fr g
+          end
+      | r => r
+      end
+  | EClass e =>
+      match reval e fr g with
+      | Res (EV v) fr g =>
+          match class_of v with
+          | Some c => Res (EV (VStr c)) fr g
+          | None => Res (EX (VErr "get_class of a non-object")) fr g
+          end
+      | r => r
+      end
+  | ESame a b =>
+      match reval a fr g with
+      | Res (EV va) fr g =>
+          match reval b fr g with
+          | Res (EV vb) fr g => Res (EV (VBool (same_value va vb))) fr g
+          | r => r
+          end
+      | r => r
+      end
+  | EPanic => Res (EX (VErr "go panic")) fr g         (* an internal error is thrown like any other *)
   end
 with reval_args (a : args) (fr : frame) (g : glob) {struct a} : res (list value + value) :=
   match a with
@@ -237,7 +283,15 @@ Definition rcall_result (c : rctl) : eout :=
   | RBrk _ | RCnt _ => EX (err "unreachable: exits are resolved inside the function")
   end.
 
+(* the handler of a thrown value: the first catch clause, in source order, whose type accepts it *)
+Fixpoint handler_for (cm : catchfn) (cs : rcatches) (x : value) : option (option string * rstmt) :=
+  match cs with
+  | RCTNil => None
+  | RCTCons ty v b r => if cm ty x then Some (v, b) else handler_for cm r x
+  end.
+
 Section Stmt.
+Variable cm : catchfn.              (* "T is the thrown object's class, an ancestor or an implemented interface" *)
 Variable funs : list fundef.
 
 Fixpoint rexec (n : nat) (fn : string) (s : rstmt) (fr : frame) (g : glob) {struct n} : res rctl :=
@@ -406,8 +460,43 @@ Fixpoint rexec (n : nat) (fn : string) (s : rstmt) (fr : frame) (g : glob) {stru
         | Fuel => Fuel
         end
     | RStatic x init =>
-        let st := match sget (fn, x) (fst g) with Some _ => fst g | None => sset (fn, x) init (fst g) end in
-        Res RNone (fst fr, x :: snd fr) (st, snd g)
+        let st := match sget (fn, x) (gstat g) with Some _ => gstat g | None => sset (fn, x) init (gstat g) end in
+        Res RNone (fst fr, x :: snd fr) (set_stat st g)
+    | RTry b cs f =>
+        (* run the block; a throw goes to its first matching handler, with the catch variable bound
+           to the thrown value itself; whatever is pending then (nothing, a jump, a return, an
+           unhandled or new throw), the finally block runs — once — and the pending signal continues
+           unless the finally block itself ends in a jump, return or throw, which replaces it *)
+        match rexec n' fn b fr (mark CTry g) with
+        | Fuel => Fuel
+        | Res cb fr1 g1 =>
+            let handled :=
+              match cb with
+              | RThrow x =>
+                  match handler_for cm cs x with
+                  | Some (xv, h) =>
+                      let '(fr2, g2) := match xv with Some v => wr fn v x fr1 g1 | None => (fr1, g1) end in
+                      rexec n' fn h fr2 g2
+                  | None => Res cb fr1 g1
+                  end
+              | _ => Res cb fr1 g1
+              end in
+            match handled with
+            | Fuel => Fuel
+            | Res c fr3 g3 =>
+                match rexec n' fn f fr3 (mark CFin g3) with
+                | Fuel => Fuel
+                | Res RNone fr4 g4 => Res c fr4 g4
+                | Res cf fr4 g4 => Res cf fr4 g4
+                end
+            end
+        end
+    | RThrowSt e =>
+        match ev e fr g with
+        | Res (EV v) fr g => Res (RThrow (thrown_of v)) fr g
+        | Res (EX x) fr g => Res (RThrow x) fr g
+        | Fuel => Fuel
+        end
     end
   end.
 
@@ -419,4 +508,4 @@ Definition rrun (n : nat) (p : stmt) : obs :=
   end.
 End Stmt.
 
-Definition run_ref (n : nat) (p : prog) : obs := rrun (funcs p) n (main p).
+Definition run_ref (cm : catchfn) (n : nat) (p : prog) : obs := rrun cm (funcs p) n (main p).
